@@ -137,7 +137,7 @@ func parsePool() ([]*path.Path, []bool) {
 func runC19(c *h.Ctx) {
 	// shard parameters
 	type cfg struct{ n, m, procs, yield int }
-	cfgs := []cfg{{16, 300, 16, 7}, {16, 300, 4, 3}, {64, 120, 16, 0}, {2, 1500, 2, 5}, {16, 300, 1, 2}, {32, 200, 8, 11},
+	cfgs := []cfg{{16, 1200, 16, 7}, {16, 1200, 4, 3}, {64, 400, 16, 0}, {2, 6000, 2, 5}, {16, 1000, 1, 2}, {32, 800, 8, 11},
 		{16, 3000, 16, 7}, {64, 1500, 16, 3}, {2, 20000, 2, 5}, {16, 3000, 4, 0}, {64, 1000, 1, 2}, {32, 2000, 8, 13}}
 	cf := cfgs[c.Shard%len(cfgs)]
 	rounds := 4
